@@ -46,7 +46,9 @@ func runMigration(c *core.Ctx) {
 	// CHECK-INSERT
 	var newKey ssa.Value
 	nIns := 0
-	sx.EachInstr(rtm, func(in ssa.Instruction) {
+	// (the insertion and the closure loops may sit in an unexported helper that receives the two keys)
+	mreg := regionOf(rtm)
+	mreg.each(func(in ssa.Instruction) {
 		mu, ok := in.(*ssa.MapUpdate)
 		if !ok || !isGlobalLoad(mu.Map, "backwardRegistry") {
 			return
@@ -61,7 +63,7 @@ func runMigration(c *core.Ctx) {
 		// would apply the registry itself, so a type that already has a migration resolves to its old name, the
 		// duplicate check never fires and a second registration silently re-targets the type
 		rawKey := false
-		kv := mu.Key
+		kv := mreg.resolve(mu.Key)
 		for i := 0; i < 3; i++ {
 			switch x := kv.(type) {
 			case *ssa.Convert:
@@ -80,7 +82,7 @@ func runMigration(c *core.Ctx) {
 		}
 		c.Check(rawKey, "errbase.RegisterTypeMigration: key of the new type", mu.Pos(), "TypeKey(getFullTypeName(newType)): the present raw name",
 			"the key under which the new type is registered is not its present raw type name (e.g. GetTypeKey, which already applies migrations): for a type that already has a migration the duplicate check never fires and the type is silently re-targeted")
-		lits := dominatingLits(mu.Block())
+		lits := mreg.lits(mu.Block())
 		ok2 := false
 		for _, l := range lits {
 			ex, isEx := l.V.(*ssa.Extract)
@@ -88,7 +90,7 @@ func runMigration(c *core.Ctx) {
 				continue
 			}
 			lk, isLk := ex.Tuple.(*ssa.Lookup)
-			if !isLk || !isGlobalLoad(lk.X, "backwardRegistry") || lk.Index != mu.Key {
+			if !isLk || !isGlobalLoad(lk.X, "backwardRegistry") || (lk.Index != mu.Key && identity(mreg.resolve(lk.Index)) != identity(mreg.resolve(mu.Key))) {
 				continue
 			}
 			// the found branch must panic
@@ -108,7 +110,7 @@ func runMigration(c *core.Ctx) {
 	_ = newKey
 	// CLOSE-BACK / CLOSE-FWD: the registry is kept transitively closed in both directions, whatever the
 	// order of registration
-	sx.EachInstr(rtm, func(in ssa.Instruction) {
+	mreg.each(func(in ssa.Instruction) {
 		mu, ok := in.(*ssa.MapUpdate)
 		if !ok || !isGlobalLoad(mu.Map, "backwardRegistry") {
 			return
@@ -182,7 +184,7 @@ func runMigration(c *core.Ctx) {
 			"the previous name is stored as given: when chained renames are registered oldest first (A->B, then B->C) the newest type is encoded under the intermediate name B instead of the original A, so the outcome depends on the registration order")
 		// CLOSE-FWD: a loop re-targets entries that point at the new key to the same stored value
 		fwd := false
-		sx.EachInstr(rtm, func(in2 ssa.Instruction) {
+		sx.EachInstr(mu.Parent(), func(in2 ssa.Instruction) {
 			mu2, ok := in2.(*ssa.MapUpdate)
 			if !ok || mu2 == mu || !isGlobalLoad(mu2.Map, "backwardRegistry") {
 				return
@@ -193,7 +195,7 @@ func runMigration(c *core.Ctx) {
 		})
 		if !fwd {
 			// the loop may live in a helper that receives the stored value
-			sx.EachInstr(rtm, func(in2 ssa.Instruction) {
+			sx.EachInstr(mu.Parent(), func(in2 ssa.Instruction) {
 				call, ok := in2.(*ssa.Call)
 				if !ok {
 					return
@@ -816,6 +818,17 @@ func runGrpcFlow(c *core.Ctx) {
 						return len(rets) > 0
 					}
 					return sx.Callee(src) != nil && sx.Callee(src).Name() == "WithDetails"
+				case *ssa.Call:
+					// a helper of the interceptor that returns the status alone (it panics where WithDetails fails)
+					if h := sx.Callee(x); h != nil && sreg.in[h] && h != srv {
+						rets := sx.Returns(h)
+						for _, hr := range rets {
+							if len(hr.Results) != 1 || !okStatus(hr.Results[0], d+1) {
+								return false
+							}
+						}
+						return len(rets) > 0
+					}
 				}
 				return false
 			}
